@@ -10,7 +10,8 @@
 (*          prod?, passes the evictor's filter?, has a pod metric?)        *)
 (*   evict  one Evict(pod) call received by the recording evictor, in      *)
 (*          order, with the result the evictor returned (ok)               *)
-(*   end    Balance returned                                               *)
+(*   end    Balance returned; obs = the recorder's count / list of the     *)
+(*          pods handed to Evict in this round                             *)
 (* TLC recomputes the usage / threshold table from the round inputs and    *)
 (* accepts an evict event only if the property-level predicates of         *)
 (* Rebalance.tla hold for it (Allowed).  Nothing else is demanded: any     *)
@@ -48,8 +49,13 @@ TEvict == /\ IsEvent("evict")
           /\ calls' = Append(calls, [pod |-> Ev.pod, ok |-> Ev.ok])
           /\ UNCHANGED <<cfg, rd, tab, sN, sP, open>>
 
+\* the recorder's own summary of the round must agree with the evict events (binds the count and the order)
 TEnd == /\ IsEvent("end")
         /\ open
+        /\ Expect(/\ Ev.obs.calls = Len(calls)
+                  /\ Len(Ev.obs.pods) = Len(calls)
+                  /\ \A i \in 1..Len(calls) : Ev.obs.pods[i] = calls[i].pod,
+                  [calls |-> Len(calls), pods |-> [i \in 1..Len(calls) |-> calls[i].pod]])
         /\ open' = FALSE /\ calls' = <<>>
         /\ UNCHANGED <<cfg, rd, tab, sN, sP>>
 
